@@ -31,7 +31,7 @@ def bounds(tier):
     return {"orders": "2-5", "mode_sizes": "1-5", "ranks": "1 .. beyond the mode sizes"}
 
 
-def make_tensor(rs, shp, cls, dt):
+def make_tensor(rs, shp, cls, dt, rescale=True):
     order = len(shp)
     if cls == "generic":
         X = rs.standard_normal(shp)
@@ -76,7 +76,12 @@ def make_tensor(rs, shp, cls, dt):
             X[tuple(idx2)] = X[tuple(idx)]
     if not np.any(X):
         X[(0,) * order] = 1.0
-    return X.astype(dt)
+    X = X.astype(dt)
+    # data in very small / very large absolute units: thresholds must be relative, never absolute
+    sc = gen.choice(rs, [1.0, 1.0, 1.0, 1.0, 1e-18, 1e12] if np.dtype(dt) == np.float64 else [1.0, 1.0, 1.0, 1e-9, 1e6])
+    if not rescale:
+        sc = 1.0   # symeig_svd clips Gram eigenvalues at an absolute eps: it is not scale invariant (part of the C05 symeig finding)
+    return (X * np.asarray(sc, dtype=dt)).astype(dt)
 
 
 def tail_sq(sig, r):
@@ -105,7 +110,10 @@ def run_case(case, ctx):
     if g == "tucker":
         order = int(rs.randint(2, 6))
         shp = gen.shape(rs, order, 1, 5 if order < 5 else 3)
-        X = make_tensor(rs, shp, cls, dt)
+        X = make_tensor(rs, shp, cls, dt, rescale=(svd != "symeig_svd"))
+        if dt == "float64" and X.dtype.kind == "f" and svd == "truncated_svd" and rs.rand() < 0.25:
+            X = X.astype(np.complex128) + 1j * rs.standard_normal(shp) * (float(np.max(np.abs(X))) or 1.0)
+            cls = cls + "+complex"
         Xh = ref.hp(X)
         nx = ref.frob_sq(Xh)
         rank = [int(rs.randint(1, s + 3)) for s in shp]
@@ -144,14 +152,14 @@ def run_case(case, ctx):
         if g == "tt":
             order = int(rs.randint(2, 6))
             shp = gen.shape(rs, order, 1, 5 if order < 5 else 3)
-            X = make_tensor(rs, shp, cls, dt)
+            X = make_tensor(rs, shp, cls, dt, rescale=(svd != "symeig_svd"))
             Xh = ref.hp(X)
             eff_tensor = Xh
             eff = shp
         else:
             n = int(rs.randint(1, 4))
             left, right = gen.shape(rs, n, 1, 3), gen.shape(rs, n, 1, 3)
-            X = make_tensor(rs, left + right, cls if cls != "lowtt" else "generic", dt)
+            X = make_tensor(rs, left + right, cls if cls != "lowtt" else "generic", dt, rescale=(svd != "symeig_svd"))
             Xh = ref.hp(X)
             perm = [i for pair in zip(range(n), range(n, 2 * n)) for i in pair]
             eff = [a * b for a, b in zip(left, right)]
@@ -161,7 +169,15 @@ def run_case(case, ctx):
         req = [1] + [int(rs.randint(1, 9)) for _ in range(order - 1)] + [1]
         if rs.rand() < 0.2:
             req = [1] * (order + 1)
-        out = D.tensor_train(X, list(req), svd=svd) if g == "tt" else D.tensor_train_matrix(X, list(req), svd=svd)
+        rank_arg = list(req)
+        if g == "tt" and rs.rand() < 0.3:
+            # the caller reuses one rank list: first on a smaller tensor (where ranks get clipped), then on this one
+            small = make_tensor(rs, [max(1, s_ // 2) for s_ in shp], "generic", dt if dt != "float32" else "float32")
+            D.tensor_train(small, rank_arg, svd=svd)
+            if rank_arg != list(req):
+                viol("ranks-respected", "caller-rank-list-edited", "tensor_train edited the caller's rank list: %s -> %s" % (req, rank_arg), {"shape": shp, "rank": req})
+                return
+        out = D.tensor_train(X, rank_arg, svd=svd) if g == "tt" else D.tensor_train_matrix(X, rank_arg, svd=svd)
         cores = [np.asarray(c) for c in out.factors]
         rr = [c.shape[0] for c in cores] + [cores[-1].shape[-1]]
         desc = {"gen": g, "shape": list(X.shape), "class": cls, "rank": req, "returned": rr, "svd": svd, "dtype": dt}
@@ -193,7 +209,7 @@ def run_case(case, ctx):
     # ---- TR-SVD: exactness in the regime the algorithm can guarantee ----------------------------------------------------
     order = int(rs.randint(2, 6))
     shp = gen.shape(rs, order, 1, 4 if order < 5 else 3)
-    X = make_tensor(rs, shp, cls, dt)
+    X = make_tensor(rs, shp, cls, dt, rescale=(svd != "symeig_svd"))
     Xh = ref.hp(X)
     nx = ref.frob_sq(Xh)
     mode = int(rs.randint(order))
